@@ -703,7 +703,7 @@ func TestCheck(t *testing.T) {
 				c.Violation(f.class, fmt.Sprintf("%s on %s: %s", tg.name, g, f.desc),
 					Case{Target: tg.name, Group: g, Index: f.index, Input: f.input, Tier: c.Tier()})
 			}
-			if i%1777 == 40 {
+			if i%397 == 40 {
 				keys := make([]string, 0, len(r.outcomes))
 				for k := range r.outcomes {
 					keys = append(keys, k)
